@@ -19,6 +19,17 @@ pub fn strategy(max_targets: usize) -> impl Strategy<Value = Case> {
     })
 }
 
+pub fn strategy_big() -> impl Strategy<Value = Case> {
+    (strategy(8), gen::filler_count()).prop_map(|(c, (n_fill, pos))| {
+        let before = match pos % 4 {
+            0 => n_fill,
+            1 => 0,
+            _ => pick(pos, n_fill + 1),
+        };
+        Case { config: gen::embed_in_fillers(&c.config, n_fill, before) }
+    })
+}
+
 pub fn classify(cfg: &ConfigSpec) -> (bool, Vec<&'static str>) {
     let mut sibling = false;
     let mut uses_above = false;
@@ -253,6 +264,7 @@ pair, or a uses entry above/inside a target; distinct by SHA-256 of the case"
     let n = ctx.n(30_000, 1_000_000);
     ctx.drive("inproc", || strategy(10), n, check);
     ctx.drive("inproc-wide", || strategy(30), n / 10, check);
+    ctx.drive("inproc-embedded-in-64-200-targets", strategy_big, n / 40, check);
     ctx.drive_all("golden-cli", golden(), "golden regression cases (CLI)", check_cli);
     let n2 = ctx.n(150, 3000);
     ctx.drive("cli-render", || strategy(8), n2, check_cli);
